@@ -5,8 +5,8 @@ from .. import scenario
 
 ID = "C10"
 LEVEL = "fault_enumeration"
-RULE = ("the full cross product (declaration context: module / function / block / class name / imported module / imported "
-        "member) x (type: int, str, bool, [int...], int?, object with a field) x (write form: =, += -= *= /= %=, ?= in "
+RULE = ("the full cross product (declaration context: module / function / block, each declared as `const C: T = v`, `const C = v`, by "
+        "unpacking `const [C, z] = [v, 0]` or as `export const`; class name / imported module / imported member) x (type: int, str, bool, [int...], int?, object with a field) x (write form: =, += -= *= /= %=, ?= in "
         "statement / if / while position, modify = from an inner function, c[i] = v, c[i] += v, c.f = v, c.f += v, reuse as "
         "from-loop counter, unpacking) x (write context: same scope, nested block, loop body, nested function, method, another "
         "module), inapplicable combinations skipped by typing, is enumerated completely in both tiers. Oracle: the program is "
@@ -85,10 +85,33 @@ def place_write(w, ctx):
     raise ValueError(ctx)
 
 
-def program(decl_ctx, t, form, wtext, wctx):
+DECL_FORMS = ["typed", "untyped", "unpack", "export"]
+
+
+def decl_forms(decl_ctx, t):
+    """declaration forms applicable to (context, type): `const C: T = v`, `const C = v`, `const [C, cz] = [v, 0]`,
+    `export const C: T = v` (module level only); the optional type needs its annotation"""
+    out = ["typed"]
+    if t not in ("opt", "obj"):
+        out.append("untyped")
+    if t != "opt":
+        out.append("unpack")
+    if decl_ctx == "module" and t != "obj":
+        out.append("export")
+    return out
+
+
+def program(decl_ctx, t, form, wtext, wctx, dform="typed"):
     ann, init, other, obs, exp = TYPES[t]
     pre = "class K {\n\tf: int\n\tconstructor(self) {\n\t\tself.f = 1\n\t}\n}\n" if t == "obj" else ""
-    decl = "const C%s = %s" % ((": " + ann) if ann else "", init)
+    if dform == "typed":
+        decl = "const C%s = %s" % ((": " + ann) if ann else "", init)
+    elif dform == "untyped":
+        decl = "const C = %s" % init
+    elif dform == "unpack":
+        decl = "const [C, cz] = [%s, 0]" % init
+    else:
+        decl = "export const C: %s = %s" % (ann, init)
     aux = "src: int? = 7\n" if t == "opt" else ""
     reader = "rd = fn() -> %s {\n\treturn %s\n}" % ({"int": "int", "str": "str", "bool": "bool", "list": "[int...]", "opt": "int?", "obj": "int"}[t], obs)
     body = "%s\n%s%s\n%s\nprint \"@obs\"\nprint %s\nprint rd()" % (decl, aux, reader, place_write(wtext, wctx), obs)
@@ -137,8 +160,19 @@ def enumerated(tier, seed):
                         continue      # classes are declared at module level
                     if decl_ctx == "block" and wctx == "method":
                         continue
-                    cases.append({"desc": {"decl": decl_ctx, "type": t, "form": form, "wctx": wctx},
-                                  "files": {"main.ms": program(decl_ctx, t, form, wtext, wctx)}, "expect": TYPES[t][4]})
+                    for dform in decl_forms(decl_ctx, t):
+                        cases.append({"desc": {"decl": decl_ctx if dform == "typed" else decl_ctx + "/" + dform, "type": t, "form": form, "wctx": wctx},
+                                      "files": {"main.ms": program(decl_ctx, t, form, wtext, wctx, dform)}, "expect": TYPES[t][4]})
+    # controls: the same programs with a harmless statement in place of the write must be accepted and run
+    # (otherwise "rejected" verdicts above would be vacuous)
+    for decl_ctx in DECL_CTX:
+        for t in TYPES:
+            for dform in decl_forms(decl_ctx, t):
+                for wctx in WRITE_CTX:
+                    if wctx == "method" and decl_ctx != "module":
+                        continue
+                    cases.append({"desc": {"decl": decl_ctx if dform == "typed" else decl_ctx + "/" + dform, "type": t, "form": "control", "wctx": wctx},
+                                  "files": {"main.ms": program(decl_ctx, t, "control", "print \"@w\"", wctx, dform)}, "expect": TYPES[t][4], "control": True})
     for desc, files, exp in special_programs():
         cases.append({"desc": desc, "files": files, "expect": exp})
     return cases
@@ -173,6 +207,14 @@ def check(case):
     res, fails, _ = scenario.execute(sc)
     key = "%s|%s|%s|%s" % (d["decl"], d["type"], d["form"], d["wctx"])
     rejected = "Did not compile" in res["run"].stderr
+    if case.get("control"):
+        ok = not fails and not rejected and "@w" in res["run"].stdout.split("\n")
+        r = CaseResult(evals=0, labels=["control=" + ("ok" if ok else "FAILED")], sample=None)
+        if not ok:
+            r.failure = fail("control program (no write) was not accepted and run: harness problem, not a violation\n%s\n%s" % (case["files"]["main.ms"], res["run"].stdout[-400:]),
+                             "C10:control", sc, case=d)
+            r.failure["inconclusive"] = True
+        return r
     r = CaseResult(nt_keys=[key] if d["wctx"] != "same" else [], labels=["decl=" + d["decl"], "form=" + d["form"], "wctx=" + d["wctx"],
                                                                        "verdict=" + ("rejected" if rejected else "accepted-unchanged" if not fails else "VIOLATION")],
                    sample={"case": d, "main.ms": case["files"]["main.ms"]})
